@@ -375,6 +375,18 @@ pub fn g_ep(e: &EpSpec) -> String {
 }
 
 /// bytes hyper passes through in a request target without complaint
+/// The same path in another legal spelling of the request target: the router
+/// is handed `uri.path()`, so the answer must not depend on it.
+fn wire_target(p: &str, k: usize) -> String {
+    match k % 8 {
+        1 => format!("http://localhost{}", p),
+        2 => format!("{}?a=b&c=%2F", p),
+        3 => format!("{}?", p),
+        5 => format!("http://localhost{}?x=/y/../z", p),
+        _ => p.to_string(),
+    }
+}
+
 fn wire_safe(p: &str) -> bool {
     p.bytes().all(|b| b.is_ascii_alphanumeric() || b"/%._~-".contains(&b))
 }
@@ -409,6 +421,7 @@ pub fn exec_live(case: &Case) -> Option<Line> {
     let addr = server.local_addr();
     let mut obs: Vec<Obs> = vec![];
     let mut conn = Conn::open(addr).ok()?;
+    let mut nreq = 0usize;
     for p in &paths {
         for m in &case.methods {
             for v in &case.versions {
@@ -417,7 +430,8 @@ pub fn exec_live(case: &Case) -> Option<Line> {
                     Some(s) => vec![("x-v", s.as_str())],
                     None => vec![],
                 };
-                let req = request(m, p, &hdrs, None);
+                nreq += 1;
+                let req = request(m, &wire_target(p, nreq), &hdrs, None);
                 let head = m.eq_ignore_ascii_case("HEAD");
                 let mut r = conn.send(&req).ok().and_then(|_| conn.read_response(head).ok());
                 if r.is_none() {
@@ -567,7 +581,7 @@ pub fn exec_pipeline(case: &PipeCase) -> Option<Line> {
     if let Ok(server) = started {
         let addr = server.local_addr();
         for r in &reqs {
-            let mut req = format!("{} {} HTTP/1.1\r\nHost: localhost\r\n", r.method, r.path).into_bytes();
+            let mut req = format!("{} {} HTTP/1.1\r\nHost: localhost\r\n", r.method, wire_target(&r.path, obs.len() + 1)).into_bytes();
             if let Some(h) = &r.header {
                 req.extend_from_slice(b"x-v: ");
                 req.extend_from_slice(h);
